@@ -53,6 +53,8 @@ def jobs(tier, seed):
     out = [('real-structure-3', dict(kind='structure', shape=[3])),
            ('real-structure-2x2', dict(kind='structure', shape=[2, 2])),
            ('real-symmetric', dict(kind='symmetric', shape=[4])),
+           ('real-symmetric-3x2', dict(kind='symmetric', shape=[3, 2])),
+           ('real-symmetric-3x1', dict(kind='symmetric', shape=[3, 1])),
            ('real-scalar', dict(kind='scalar', shape=[])),
            ('geometric', dict(kind='geometric', shape=[1])),
            ('fp32-total', dict(kind='fp', shape=[32]))]
@@ -120,10 +122,15 @@ def run_job(job, kind, shape):
         r0, e0 = sn.run_single(h0).result
         job.paths += 2
         n = shape[0]
-        job.confirm('symmetric-shapes', np.shape(rs) == (n - 1,) and np.shape(es) == (n - 1,))
-        for i in range(n - 1):
-            job.prove('sym-result[%d]' % i, sn.lift(rs[i]) == sn.lift(r0[i]), [], dict(key='C13:symmetric-result', kind='sym'))
-            job.prove('sym-abserr[%d]' % i, sn.lift(es[i]) == sn.lift(e0[i + 1]), [], dict(key='C13:symmetric-abserr', kind='sym'))
+        # one element trimmed from each output along the sequence axis (axis 0), every other axis untouched
+        want = (n - 1,) + tuple(shape[1:])
+        if not job.confirm('symmetric-shapes', np.shape(rs) == want and np.shape(es) == want):
+            job.violation('symmetric-shape', dict(key='C13:symmetric-shape', kind='sym', got=[list(np.shape(rs)), list(np.shape(es))], want=list(want)))
+            return
+        for idx in np.ndindex(want):
+            up = (idx[0] + 1,) + idx[1:]
+            job.prove('sym-result%s' % (idx,), sn.lift(np.asarray(rs)[idx]) == sn.lift(np.asarray(r0)[idx]), [], dict(key='C13:symmetric-result', kind='sym'))
+            job.prove('sym-abserr%s' % (idx,), sn.lift(np.asarray(es)[idx]) == sn.lift(np.asarray(e0)[up]), [], dict(key='C13:symmetric-abserr', kind='sym'))
         # length-1 input with symmetric=True is returned untrimmed
         one = [_vars('s%d' % k, [1]) for k in range(3)]
 
